@@ -18,3 +18,23 @@ def gen_ops(rng, tier, ctx=None):
                         yield "mpn_tdiv_q %s %s" % (vec(nl), vec(dl))
                         yield "mpz_tdiv_q 0 %s %s" % (hx(n), hx(d))
                         yield "mpz_fdiv_q 0 %s %s" % (hx(-n), hx(d))
+
+    # the same regime with a NORMALISED divisor 2^(64dn-1) + tail (tail below the top qn+1 limbs, as large as it can be) and the
+    # largest quotients 2^(64qn) - 1 - e: the truncated divisor under-estimates d by the largest relative amount and the
+    # quotient multiplies that error by almost 2^(64qn), so the guard limb of the approximate quotient is off by more than one unit
+    for qn in ([1, 2, 3, 5, 8] if tier == "quick" else [1, 2, 3, 4, 5, 6, 7, 8, 16, 24, 32, 40]):
+        for extra in (6, 7, 8, 9):
+            dn = qn + extra
+            for sh in (0, 7, 63):
+                for tailkind in ("ones", "ones-small", "rand-hi"):
+                    tb = 64 * (dn - qn - 1)
+                    tail = (1 << tb) - 1
+                    if tailkind == "ones-small": tail -= rng.randrange(1, 1 << 16)
+                    elif tailkind == "rand-hi": tail = rng.getrandbits(tb) | (((1 << 40) - 1) << (tb - 40))
+                    d = ((1 << (64 * dn - 1)) + tail) >> sh
+                    for e in (0, 1, 2):
+                        q = (1 << (64 * qn)) - 1 - e
+                        for n in (q * d + d - 1, q * d + d - 1 - rng.randrange(1 << 30), q * d):
+                            yield "mpn_tdiv_q %s %s" % (vec(limbs_of(n)), vec(limbs_of(d)))
+                            yield "mpz_tdiv_q 0 %s %s" % (hx(n), hx(d))
+                            if e == 0: yield "mpz_cdiv_q 0 %s %s" % (hx(-n), hx(d))
